@@ -7,7 +7,7 @@ CONSTANTS
   LiveLimit = 3
   Modes = {"rec"}
   Kinds = {"fresh", "rlive", "rstream"}
-  Pages = {1, 2}
+  Pages = {1}
   SSizes = {1, 2}
   Filts = {"client", "server"}
   Ops = {"pub", "rem", "exp", "sexp", "clear", "refresh", "poscheck"}
